@@ -23,11 +23,11 @@ CHECKS = {
    text="Conflict-heavy concurrent plans produce rejected requests at every internal stage; TLC checks on the recorded traces that a rejected request's task committed no state change, that an accepted request committed exactly once, and that transaction brackets never nest.",
    note=TRACE_NOTE),
  "C19": dict(engine="buildlayer", category="model_checking", design_ref="§8 C19",
-   technique="TLA+ trace validation (TLC) of return-code bits and pending summary against the final committed state of each phase",
+   technique="TLA+ trace validation (TLC) of return-code bits and pending summary against the final committed state of each phase + Job.tla (operational model of what a dispatched job does -- validate, skip or execute with the step hash: model checked incl. Sound and, under fairness, Settles; refutes the variants 'skip without comparing outputs' and 'refused skip keeps the hash'; every commit of the real director on a project of the model's shape is matched against the model's actions)",
    text="At every phase end of recorded executions (failing steps, missing inputs, unsatisfiable resources, deferrals, keep-going, drains) TLC recomputes the failed/pending bits and the pending partition from the committed graph and compares them with what the director reported.",
    note=TRACE_NOTE),
  "C03": dict(engine="buildlayer", category="model_checking", design_ref="§8 C03",
-   technique="TLA+ trace validation (TLC) of command start / read / amend / completion events against input availability and finality monitors + Defer.tla (operational model of amended inputs, deferral, wake-up and the defer cap: model checked incl. liveness under fairness, replayed into the real Workflow, Layer G)",
+   technique="TLA+ trace validation (TLC) of command start / read / amend / completion events against input availability and finality monitors + Defer.tla (operational model of amended inputs, deferral, wake-up and the defer cap: model checked incl. liveness under fairness, replayed into the real Workflow, Layer G) + Job.tla (operational model of what a dispatched job does -- validate, skip or execute with the step hash: model checked incl. Sound and, under fairness, Settles; refutes the variants 'skip without comparing outputs' and 'refused skip keeps the hash'; every commit of the real director on a project of the model's shape is matched against the model's actions)",
    text="For every command start of recorded executions TLC checks that every declared input was built or confirmed; amend/defer and changed-underneath clauses are monitored on the same traces.",
    note=TRACE_NOTE),
  "C08": dict(engine="buildlayer", category="model_checking", design_ref="§8 C08",
@@ -44,7 +44,7 @@ CHECKS.update({
    text="For hand-written drop/re-add shapes and seeded generated projects with 4-phase edit histories (sources, plan versions, environment), the final committed graph and output contents of the incremental execution are compared by TLC with those of a real build from scratch, through the specification's canonical form; every execution is additionally validated against the commit-level monitors. Recycle.tla (reset/detach, re-declare, recycle or re-create, finish, children with jobs in flight, delete_detached) is model checked (ownership, BUILT <=> SUCCEEDED, completeness of a finished build) and seeded/scripted action sequences are executed on the real Workflow through the graph API, every node compared with the specification after every action.",
    note=REL_NOTE),
  "C04": dict(engine="history", category="model_checking", design_ref="§8 C04",
-   technique="TLA+ relational check (TLC, RelCheck.tla): no-op rebuild leaves graph/outputs untouched with zero commands; executed commands of an edited rebuild lie in the least-fixed-point cone",
+   technique="TLA+ relational check (TLC, RelCheck.tla): no-op rebuild leaves graph/outputs untouched with zero commands; executed commands of an edited rebuild lie in the least-fixed-point cone + Job.tla (operational model of what a dispatched job does -- validate, skip or execute with the step hash: model checked incl. Sound and, under fairness, Settles; refutes the variants 'skip without comparing outputs' and 'refused skip keeps the hash'; every commit of the real director on a project of the model's shape is matched against the model's actions)",
    text="After each successful history a no-change rebuild must execute nothing, rewrite nothing and leave the full graph identical; after editing a random subset of sources TLC computes the cone (consumers, glob matches, downstream, created steps) on the union graph and requires every executed command to lie in it.",
    note=REL_NOTE),
 })
@@ -99,7 +99,7 @@ CHECKS.update({
 
 CHECKS.update({
  "C13": dict(engine="c13", category="model_checking", design_ref="§8 C13",
-   technique="TLA+ specification of the byte stream fed to SHA-256 (spec/HashEncCore.tla) model checked for injectivity on an adversarial domain (spec/HashEnc.tla, linear check through VIEW + distinct-state count) and replayed against the real StepHash with a recording hash object (spec/HashVec.tla); TLA+ specification of FileHash.refreshed (spec/Refresh.tla) with trace validation of recorded calls on real files",
+   technique="TLA+ specification of the byte stream fed to SHA-256 (spec/HashEncCore.tla) model checked for injectivity on an adversarial domain (spec/HashEnc.tla, linear check through VIEW + distinct-state count) and replayed against the real StepHash with a recording hash object (spec/HashVec.tla); TLA+ specification of FileHash.refreshed (spec/Refresh.tla) with trace validation of recorded calls on real files + Job.tla (operational model of what a dispatched job does -- validate, skip or execute with the step hash: model checked incl. Sound and, under fairness, Settles; refutes the variants 'skip without comparing outputs' and 'refused skip keeps the hash'; every commit of the real director on a project of the model's shape is matched against the model's actions)",
    text="TLC proves on a domain of 324000 configurations built from the section keywords, the empty string, defined/undefined variables and known/unknown file hashes that the input stream is injective on two sub-domains covering all pairs but the known collision F22, and that the output stream is injective. The real from_inp/with_out_hashes are executed with a recording hash object on seeded configurations (non-ASCII, control characters, keywords, 2^63-1 sizes) in shuffled ingredient order; the bytes fed to SHA-256 must equal the specification's stream, and for every single-ingredient mutation (label, shell, path, content, size, mode, definedness, value, override, section move) digest equality must coincide with stream equality (i.e. differ). Recorded refreshed() calls after file manipulations (same-size rewrite with restored mtime, chmod, replace by rename, delete, recreate, touch) are validated by TLC against Refresh.tla.",
    note="Trusted base: TLC 1.8; SHA-256 collision freeness; digests of existing files are not adversarial 32-byte values; the recorder that replaces hashlib.sha256 inside HashWords. JSON round trips are checked by generated values outside the TLA+ specification (encode/decode fidelity)."),
 })
@@ -155,6 +155,7 @@ def main():
             {"name": "plans", "path": "checks/plans.py", "serves_properties": ["C01"], "kind_free_text": "Plans.tla model check (finds F17) + replay of plan/sub-plan ownership transfer into the real Workflow (Layer G); library called by the C01 check"},
             {"name": "schedcache", "path": "checks/schedcache.py", "serves_properties": ["C10", "C11", "C12"], "kind_free_text": "SchedCache.tla model check (cache = definition whenever nothing is flagged; finds F1 and F2 in their pre-fix variants) + replay of graph-modification sequences into the real Workflow + Scheduler (Layer G); library called by the C10, C11 and C12 checks"},
             {"name": "defer", "path": "checks/defer.py", "serves_properties": ["C02", "C03", "C10"], "kind_free_text": "Defer.tla model check (NoLostWakeup, defer cap, Settles under fairness; finds the BUILT-only re-check variant) + replay of amend / declare / confirm / complete interleavings into the real Workflow (Layer G); library called by the C02, C03 and C10 checks"},
+            {"name": "job", "path": "checks/job.py", "serves_properties": ["C03", "C04", "C13", "C19"], "kind_free_text": "Job.tla model check (Sound, HashOnlyWhenChecked, BuiltIsRecorded, NeverRaises, CapRespected, Settles under fairness; refutes two variants) + trace validation: commits, hash computations, reads, writes and ends of commands of the real in-process director on a one-step project (edits of inputs, output and environment between and during builds, restarts and watch phases) matched against the model's actions; library called by the C03, C04, C13 and C19 checks"},
             {"name": "watchsets", "path": "checks/watchsets.py", "serves_properties": ["C09", "C14"], "kind_free_text": "WatchSets.tla model check (Complete, DeletedAbsent, UpdatedPresent; finds the cancelling-pair variant) + replay of event sequences into the real Watcher.record_change (Layer G); library called by the C09 and C14 checks"},
             {"name": "cleanup", "path": "checks/cleanup.py", "serves_properties": ["C06", "C07"], "kind_free_text": "Cleanup.tla model check over the whole configuration family (only deleted nodes lose their file, modified files kept, survivors held by something attached; the strict form fails: F9) + replay of sampled configurations into the real Workflow, delete_detached and remove_deletable_files on a real directory (Layer G); library called by the C06 and C07 checks"},
             {"name": "recycle", "path": "checks/recycle.py", "serves_properties": ["C01"], "kind_free_text": "Recycle.tla model check + replay of plan re-execution sequences into the real Workflow (Layer G); library called by the C01 check"},
